@@ -245,8 +245,18 @@ def heapCanon : Reader String := do
   let changed := (List.range 16).filter (fun n => st.heap.node n != (canonTransformHeap isParam svf).node n)
   pure (if canonPure isParam svf a then "pure" else s!"changed {fmtNats changed}")
 
+/-- `heap.canonc <condition|grid>` → `pure` | `changed n₁,n₂…` on the canonical composite -/
+def heapCanonComposite : Reader String := do
+  let g ← (do
+    match (← tok) with
+    | "condition" => pure false
+    | "grid" => pure true
+    | t => throw s!"bad-op:cacc:{t}")
+  let ch := canonCompositeChanged g
+  pure (if ch.isEmpty then "pure" else s!"changed {fmtNats ch}")
+
 def heapHandlersPart1 : List (String × Reader String) :=
-  [("heap.check", heapCheck), ("heap.run", heapRun), ("heap.canon", heapCanon)]
+  [("heap.check", heapCheck), ("heap.run", heapRun), ("heap.canon", heapCanon), ("heap.canonc", heapCanonComposite)]
 
 end Deepali.Drv
 
